@@ -87,8 +87,12 @@ CLAIMED["C09"] = dict(
     text="Lean theorems C09_size and C09_roundtrip: for EVERY type (arbitrary nesting of arrays, tuples, structs, enums over all "
          "primitive types) and every well-typed value, the documented layout encodes to exactly size(T) bits and decoding the bits "
          "yields the value (mutual structural induction; integers via two's-complement round trip at every primitive width; enum "
-         "tags wide enough for every variant). PARTIAL: that Literal::is_of_type / as_bits / from_unwrapped_bits implement this "
-         "specification (C09_accept_safe_Statement) is not proved but checked by correspondence: random types x values x "
+         "tags wide enough for every variant). C09_accept_safe / C09_accept_size: for EVERY literal (ArrayRepeat, Range, struct "
+         "fields in any order, unit and tuple variants, any nesting) that the model of Literal::is_of_type accepts for a type, "
+         "the literal denotes a well-typed value of the type and the model of as_bits emits exactly that value's encoding - "
+         "size(T) bits that decode to it (hypothesis: the struct/enum definitions used for encoding are those of the type, "
+         "field names distinct). PARTIAL: from_unwrapped_bits, printing and parsing are not covered by a theorem; the models of "
+         "literal.rs are tied to the code by correspondence: random types x values x "
          "{canonical literal, alternative spellings, one adversarial edit} through literal_arg, as_bits, parse_output, "
          "Evaluator::set_literal + the identity program, against the Lean transliteration AND an independent Python specification. "
          "The print/parse sentence is explored through the implementation only (no Lean model of the literal parser).",
